@@ -134,10 +134,14 @@ Definition clears_panel (fw fh madctl : Z) (p : panel) (ws : list Z) (ev : list 
   && match k_flags k with [] => true | _ => false end.
 
 (* the L1 view of a pin-level run: every log decoded; results and reported state kept *)
-Definition decode_pout2 (pc : pcase) (m : model_def) (impl : pout2) : pout :=
+Definition decode_pout2_from (st0 : lines) (pc : pcase) (m : model_def) (impl : pout2) : pout :=
   let '(r0, ops0, ob0, outs) := impl in
   let logs := (false, ops0) :: map (fun y => (is_err (fst (fst y)), snd (fst y))) outs in
-  match decode_seq pc m (lines0 (bus_width pc)) true logs with
+  match decode_seq pc m st0 true logs with
   | ev0 :: evs => (r0, ev0, ob0, map (fun z => (fst (fst (fst z)), snd z, snd (fst z))) (combine outs evs))
   | [] => (r0, [], ob0, [])
   end.
+Definition decode_pout2 (pc : pcase) (m : model_def) (impl : pout2) : pout :=
+  decode_pout2_from (lines0 (bus_width pc)) pc m impl.
+(* data pins that idle high (pull-ups, boot loader): what the panel latches must not depend on it *)
+Definition lines_high (w : nat) : lines := {| l_pins := repeat true w; l_dc := true; l_wr := true |}.
